@@ -3,7 +3,8 @@ routines that use it.  No Mathlib import.
 
 * `andes/linsolvers/solverbase.py`  `Solver.solve / linsolve / clear` dispatch to one worker.
 * `andes/linsolvers/suitesparse.py` `SuiteSparseSolver.solve` (cached symbolic factor `F`, flag `factorize`,
-  re-symbolic on `ValueError`, NaN vector on `ArithmeticError`), `UMFPACKSolver/KLUSolver.linsolve`, `clear`.
+  re-symbolic on `ValueError`, NaN vector on `ArithmeticError`), `UMFPACKSolver/KLUSolver.linsolve` (NaN vector on
+  `ArithmeticError`), `clear`.
 * `andes/linsolvers/scipy.py`       `SpSolve.solve` (flags `factorize` / `new_A`, cached `self.lu`),
   `SpSolve.linsolve`, `SciPySolver.clear` (a no-op).
 * `andes/routines/pflow.py:123-138` (`nr_step` sets `worker.new_A`), `andes/routines/daeint.py:62-115`
@@ -98,9 +99,10 @@ def ssSolveOut (lib : Lib) (s : St M P) (A : M) (b : V) : Out V :=
   | .ok => .vec (S.sol A b)
   | .arith => .vec (S.nan b)
   | .valueError =>
-    -- `self.F = self._symbolic(self.A); self.solve(self.A, self.b); return np.ravel(self.b)`:
-    -- the value of the recursive call is dropped, `b` holds the solution only if that call succeeded
-    if S.reg A then .vec (S.sol A b) else .vec b
+    -- `self.F = self._symbolic(self.A); return self.solve(self.A, self.b)`: the value of the recursive call
+    -- (the solution, or the NaN vector of a singular matrix) is returned.  (On the pinned tree it was dropped
+    -- and `b` came back unchanged for a singular matrix: finding repaired.)
+    if S.reg A then .vec (S.sol A b) else .vec (S.nan b)
   | .ub => .ub
   | .typeError => .raised
 
@@ -126,8 +128,9 @@ def ssSolveDead (lib : Lib) (s : St M P) (A : M) : Bool :=
 def ssSolveSt (lib : Lib) (s : St M P) (A : M) : St M P :=
   { s with F := ssSolveF S lib s A, factorize := false, dead := ssSolveDead S lib s A }
 
-/-- `UMFPACKSolver.linsolve` / `KLUSolver.linsolve`: `ArithmeticError` is swallowed, `b` is returned -/
-def ssLinOut (A : M) (b : V) : Out V := if S.reg A then .vec (S.sol A b) else .vec b
+/-- `UMFPACKSolver.linsolve` / `KLUSolver.linsolve`: on `ArithmeticError` the NaN vector is returned, as `solve`
+and the SciPy worker do (on the pinned tree the error was swallowed and `b` returned: finding repaired) -/
+def ssLinOut (A : M) (b : V) : Out V := if S.reg A then .vec (S.sol A b) else .vec (S.nan b)
 def ssLinTrace (A : M) : List Call := if S.reg A then [.lin] else [.linA]
 
 /-- `SpSolve.solve`: does this call factorise? -/
